@@ -764,6 +764,15 @@ func judgeEvo(c evoCase, excludeKnown bool) outcome {
 	if derr != nil {
 		return outcome{status: "new_write_invalid"} // C02's business
 	}
+	// ... and these bytes must be data of the newer version in the first place:
+	// the newer code itself reads them (a drawn value can lack required fields
+	// through a declared struct default that leaves them out; such bytes are
+	// nobody's valid data)
+	if r0, err := callNew(map[string]interface{}{"op": "read", "type": tiNew.Key, "hex": resp["hex"]}); err != nil {
+		return harness(err)
+	} else if r0["panic"] != nil || r0["err"] != nil {
+		return outcome{status: "new_cannot_read_own_data"}
+	}
 	v := dr0.Value
 	want := ref.Normalise(ntop, v)
 	ps := &projStats{dropped: map[string]int{}}
@@ -944,6 +953,34 @@ func modelCfg() idl.Cfg {
 	return c
 }
 
+// stripUnionRefDefaults removes declared defaults of container- or struct-typed
+// union members.  The constructor of such a union pre-sets the member and
+// IsSet reports it (non-nil), so an object that Read filled with another
+// member counts two members and cannot be written — with one single version
+// of the schema already, so it is not a question of evolution (C02/C06 own
+// reading, writing and defaults of one version).
+func stripUnionRefDefaults(p *idl.Program) int {
+	n := 0
+	for _, f := range p.Files {
+		for _, d := range f.Defs {
+			if d.Kind != idl.KUnion {
+				continue
+			}
+			for _, fl := range d.Fields {
+				if fl.Default == nil {
+					continue
+				}
+				switch fl.Type.FinalCat() {
+				case "list", "set", "map", "struct", "union", "exception":
+					fl.Default = nil
+					n++
+				}
+			}
+		}
+	}
+	return n
+}
+
 // removal is one part of new that old lacks.
 type removal struct {
 	def    *idl.Def
@@ -1004,7 +1041,10 @@ func deriveOld(rt *rapid.T, p *idl.Program) (*idl.Program, []removal) {
 	}
 	var rem []removal
 	for _, c := range cands {
-		if rapid.IntRange(0, 2).Draw(rt, "remove") == 0 {
+		// container- and struct-typed fields are the interesting unknown fields: removed twice as often
+		big := c.field != nil && (strings.HasSuffix(c.class(), ":container") || strings.HasSuffix(c.class(), ":struct"))
+		k := rapid.IntRange(0, 2).Draw(rt, "remove")
+		if k == 0 || (big && k == 1) {
 			rem = append(rem, c)
 		}
 	}
@@ -1104,6 +1144,9 @@ func affected(schNew, schOld *ref.Schema) map[string]bool {
 func TestEvolve(t *testing.T) {
 	rapid.Check(t, func(rt *rapid.T) {
 		p := idl.Gen(rt, modelCfg())
+		if n := stripUnionRefDefaults(p); n > 0 {
+			vt.ClassN("narrowed:union_member_container_or_struct_default_stripped", int64(n))
+		}
 		schNew := ref.Build(p)
 		if len(schNew.Structs) == 0 {
 			rt.Skip("no struct-like in the program")
